@@ -14,6 +14,7 @@ def oracle (out : Sexp) : String :=
   match out with
   | .list [.atom "ok", _] => "ok"
   | .list (.atom "differs" :: _) => "viol concurrent-plan-differs-from-sequential"
+  | .list [.atom "state-changed"] => "viol shared-routing-state-changed-by-planning"
   | .atom "panic" => "viol planner-panic"
   | _ => "viol unexpected-output"
 
